@@ -125,12 +125,62 @@ def run(run, replay=None):
                 b2b_err = "%s after %d back-to-back rounds" % (type(e_).__name__, j)
             if b2b_err:
                 errs.append(b2b_err)
+            # the same two requests written to the socket in ONE segment (HTTP/1.1 pipelining): the conversion is read the moment the
+            # registration has been answered — the tightest gap a client can produce
+            import socket as _so
+
+            def _req(m_, p_, id_):
+                body_ = json.dumps({"jsonrpc": "2.0", "id": id_, "method": m_, "params": p_}).encode()
+                return (b"POST / HTTP/1.1\r\nHost: 127.0.0.1\r\nContent-Type: application/json\r\nContent-Length: "
+                        + str(len(body_)).encode() + b"\r\n\r\n" + body_)
+
+            def _read_response(sock_, buf_):
+                while b"\r\n\r\n" not in buf_:
+                    chunk_ = sock_.recv(65536)
+                    if not chunk_:
+                        return None, buf_
+                    buf_ += chunk_
+                head_, rest_ = buf_.split(b"\r\n\r\n", 1)
+                n_ = 0
+                for hl_ in head_.split(b"\r\n")[1:]:
+                    if hl_.lower().startswith(b"content-length:"):
+                        n_ = int(hl_.split(b":", 1)[1])
+                while len(rest_) < n_:
+                    chunk_ = sock_.recv(65536)
+                    if not chunk_:
+                        return None, rest_
+                    rest_ += chunk_
+                return rest_[:n_], rest_[n_:]
+
+            pipe_err, pipe_rounds, pipelining = None, 0, True
+            try:
+                sock_ = _so.create_connection(("127.0.0.1", srv.port), timeout=6.0)
+                buf_ = b""
+                for j in range(40 if run.tier != "thorough" else 150):
+                    sock_.sendall(_req("RegisterWord", {"kind": "CommonNoun", "reading": "てすと", "word": "管%d" % j}, 2 * j)
+                                  + _req("GetCandidates", {"input": "てすと"}, 2 * j + 1))
+                    for _ in range(2):
+                        r_, buf_ = _read_response(sock_, buf_)
+                        if r_ is None:
+                            pipelining = False       # the server closed the connection: it does not pipeline; nothing is concluded
+                            break
+                    if not pipelining:
+                        break
+                    pipe_rounds += 1
+                sock_.close()
+            except _so.timeout:
+                pipe_err = "timeout after %d pipelined register+convert rounds" % pipe_rounds
+            except OSError:
+                pipelining = False
+            if pipe_err:
+                errs.append(pipe_err)
             probe = srv.conv("くるまで", timeout=5.0)
             srv.rpc("RegisterWord", {"kind": "CommonNoun", "reading": "てすと", "word": "多忙"}, timeout=5.0)
             saved = S.wait_until(lambda: os.path.exists(os.path.join(ud, "user.dic")) and
                                  "多忙" in open(os.path.join(ud, "user.dic"), encoding="utf-8", errors="replace").read(), 6.0) is not None
             o = {"workers": k, "clients_converting_during_saves": k, "conversions_answered": sum(done), "errors": errs[:3],
-                 "answers_afterwards": probe[0] == "ok", "periodic_save_afterwards": saved, "user_dir": True}
+                 "answers_afterwards": probe[0] == "ok", "periodic_save_afterwards": saved, "user_dir": True,
+                 "pipelined_rounds": pipe_rounds, "pipelining": pipelining}
             obs.append(o)
             if errs or probe[0] != "ok":
                 fails.append(("never-answers", {"kind": "never-answers", "phase": "requests-during-saves"}, o))
